@@ -149,3 +149,64 @@ def validate_lang_traces(chk, records, label):
         for f_ in r.tagged["FAIL"]:
             fails[f_["id"]] = f_
     return fails
+
+
+# ---------------------------------------------------------------------------
+# lock-step validation (Lockstep.tla)
+def bits(v):
+    """canonical string of a recorded number: bit pattern, NaN canonicalised"""
+    import struct
+    f = decode(v)
+    if f != f:
+        return "nan"
+    return struct.pack(">d", f).hex()
+
+
+def side(be_res, with_words=True, digest_over=16):
+    """one execution as Lockstep.tla reads it; long state-word vectors travel as a digest"""
+    import hashlib
+    st = be_res.get("status", "missing")
+    words = []
+    if with_words:
+        for row in be_res.get("words", []):
+            b = [bits(v) for v in row]
+            words.append(b if len(b) <= digest_over else
+                         [f"len{len(b)}", hashlib.sha1(",".join(b).encode()).hexdigest()])
+    return {"status": st, "nout": be_res.get("nout_end", be_res.get("nout")) or 0,
+            "out": [[bits(v) for v in row] for row in be_res.get("out", [])],
+            "words": words}
+
+
+def validate_lockstep(chk, records, label):
+    """records: {id, a, b, cmpwords}. Returns {id: fail-info}. Chunks are validated by parallel
+    single-worker TLC runs."""
+    if not records:
+        return {}
+    from concurrent.futures import ThreadPoolExecutor
+    os.makedirs(vlib.WORK, exist_ok=True)
+    step = 1500
+    parts = [records[k:k + step] for k in range(0, len(records), step)]
+
+    def one(args):
+        k, part = args
+        path = os.path.join(vlib.WORK, f"lockstep_{label}_{k}.ndjson")
+        with open(path, "w") as f:
+            for r in part:
+                f.write(json.dumps(r) + "\n")
+        try:
+            r = vlib.run_tlc("Lockstep", workers=1, timeout=1800, env={"TRACE": path},
+                             tags=("FAIL", "CONSUMED"), deque=True, xss=True, heap="3g")
+        finally:
+            os.unlink(path)
+        if r.violation or not r.tagged["CONSUMED"] or r.tagged["CONSUMED"][0]["n"] != len(part):
+            raise vlib.ToolError(f"Lockstep did not consume the whole trace ({label}): {r.violation}\n" + r.stdout[-1500:])
+        return k, r
+
+    fails = {}
+    with ThreadPoolExecutor(max_workers=6) as ex:
+        for k, r in ex.map(one, list(enumerate(parts))):
+            chk.tlc(r, f"Lockstep[{label}:{k}]")
+            chk.count("traces_validated_against_impl", len(parts[k]))
+            for f_ in r.tagged["FAIL"]:
+                fails[f_["id"]] = f_
+    return fails
